@@ -846,3 +846,16 @@ def opt_term_bool(x):
             t = e if t is None else z3.If(g, e, t)
         return t
     return OBo.some(x)
+
+
+# the emptiness lemma of range folds (F(xs, k, lo) = init for k <= lo), which Fold adds as an instance for folds declared
+# with range_lo, proved here for each of them by induction on k from the two defining equations
+@contract('gemato/manifest.py', '<range-folds>', props=['C04', 'C09', 'C05'])
+def _(c):
+    c.trusted = True
+    xs = z3.Const('xs!rf', SeqSS)
+    lo = z3.Int('lo!rf')
+    for fold, init in ((ents_signed, z3.Empty(SeqSeqSS)), (hdr_nonblank, z3.BoolVal(True)), (body_ok, z3.BoolVal(True)),
+                       (sig_ok, z3.BoolVal(True)), (tail_blank, z3.BoolVal(True)), (join_lines, z3.StringVal(''))):
+        c.induction('nothing-folded-below-the-lower-bound:' + fold.name,
+                    lambda env, k, fold=fold, init=init: z3.Implies(k <= lo, fold(env, xs, k, lo) == init))
